@@ -117,6 +117,7 @@ func C16_Legacy() {
 	h.checkVersions("c16:legacy")
 	h.audit()
 	legacyLatest := L
+	f24 := false
 	// new-format history on top
 	switch vChoice("then", 5) {
 	case 0: // commit without writes on a legacy root, then a write
@@ -134,6 +135,7 @@ func C16_Legacy() {
 	case 3: // roll back to a legacy version (only meaningful with two retained legacy versions + new ones)
 		if vChoice("nowrite", 2) == 1 {
 			// the new version on top is a commit without writes (its root is the re-saved legacy root)
+			f24 = true
 			h.doCommit()
 			vCover("rollback-over-a-commit-without-writes")
 		} else {
@@ -158,6 +160,10 @@ func C16_Legacy() {
 		if vChoice("redo", 2) == 1 {
 			h.doSet(vChoice("key2", n))
 			h.doCommit()
+		} else if f24 {
+			// region of finding F24: the rollback ran over a commit without writes on top of the legacy
+			// versions and no new version has been committed since
+			h.f24 = true
 		}
 		vCover("rollback-to-legacy")
 	case 4: // nothing new
@@ -194,6 +200,12 @@ func C16_Legacy() {
 	}
 	if vChoice("reopen", 2) == 1 {
 		h.doReopen()
+		if h.f24 {
+			// inside the region of finding F24 the restart itself is the observation; what the tree
+			// answers after a failed or wrong Load() is not examined further
+			vCover("legacy-checked")
+			return
+		}
 		h.checkVersions("c16:after-reopen")
 		h.audit()
 	}
